@@ -54,24 +54,3 @@ Theorem c12_world_drop_destroys_exactly_what_is_stored :
   forall (w : world), w_drops (op_drop w) = w_drops w ++ stored w.
 Proof. exact op_drop_spec. Qed.
 Print Assumptions c12_world_drop_destroys_exactly_what_is_stored.
-
-Require Import EV.WorldFrame EV.Member EV.NoUB EV.Sender EV.EvLedger.
-(* stored component values across a whole propagation on any reachable world: `stored` after, plus everything
-   destroyed during the propagation, is a permutation of `stored` before plus the payloads of the queued and
-   sent events - so a stored value is destroyed at most once, only by leaving the storage, and no value that
-   left the storage survives undestroyed (multisets of (type, serial): zero-sized types included) *)
-Theorem c12_a_propagation_conserves_stored_values :
-  forall (beh : hinfo -> logent -> N -> script) (fuel p : N) (ops : list top_all) (q : list qitem),
-    let w := fold_left (run_top_all beh) ops (world0 fuel p) in
-    (forall x, In x q -> item_ok w x) ->
-    let r := flush beh q w in res_fail r <> Some (FPanic 5) -> res_fail r <> Some (FPanic 8) ->
-    exists S nd X, w_drops (res_world r) = w_drops w ++ nd /\
-      Permutation (stored (res_world r) ++ nd) (stored w ++ entries w q ++ entries w S ++ X) /\ (res_fail r = None -> X = nil).
-Proof. exact reachable_flush_ledger. Qed.
-Print Assumptions c12_a_propagation_conserves_stored_values.
-
-(* handler writes never change which values are stored *)
-Theorem c12_handler_writes_keep_the_stored_values :
-  forall (w : world) (q : query) (d ai : N) (r : option N), Permutation (stored (write_arch w q d ai r)) (stored w).
-Proof. exact stored_write_arch. Qed.
-Print Assumptions c12_handler_writes_keep_the_stored_values.
